@@ -66,9 +66,18 @@ fn str_len(rng: &mut Rng, big: bool) -> usize {
     }
 }
 
+/// strings that collide with escape / quoting conventions of common carrier formats
+pub const TRICKY: &[&str] = &[
+    "\\x41", "C:\\x64\\driver.inf", "a\\xFFb", "\\u0041", "\\n", "\\", "\\\\", "%41", "&amp;", "<a>", "\"", "\"\"", "'", "\"utf-8\"", "\u{85}", "\u{9f}x", "\u{80}",
+    "a\0", "\0", " 2", "2 ", "true ", " false", "\t1", "1\n", "null", "NaN", "-0", "+5", "0x10", "1e3", "\u{feff}bom", "\u{2028}", "\u{7f}",
+];
+
 pub fn gen_string(rng: &mut Rng, big: bool) -> String {
     if rng.chance(1, 5) {
         return rng.pick(WORDS).to_string();
+    }
+    if rng.chance(1, 12) {
+        return rng.pick(TRICKY).to_string();
     }
     let n = str_len(rng, big);
     utf8_exact(rng, n)
@@ -188,7 +197,9 @@ pub fn gen_scalar(rng: &mut Rng, cfg: &G1Cfg, in_coll: bool) -> MVal {
                 let tags = other_tags();
                 let tag = *rng.pick(&tags);
                 let n = if (tag == 0x10 || tag == 0x12) && !cfg.oob_nonempty { 0 } else { str_len(rng, cfg.big) };
-                MVal::Other { tag, data: rng.bytes(n) }
+                // raw octets: random bytes, or text that looks like an escape sequence of some carrier format
+                let data = if n > 0 && rng.chance(1, 6) { rng.pick(TRICKY).as_bytes().to_vec() } else { rng.bytes(n) };
+                MVal::Other { tag, data }
             }
         };
     }
@@ -911,10 +922,10 @@ pub fn tnv(out: &mut Vec<u8>, tag: u8, name: &[u8], val: &[u8]) {
     out.extend_from_slice(val);
 }
 
-pub const FAMILIES: [&str; 19] = [
+pub const FAMILIES: [&str; 20] = [
     "nest", "nest-noname", "set-width", "attr-count", "group-count", "member-count", "value-len", "name-len", "unterminated", "endcoll-flood",
     "member-flood", "addl-no-attr", "coll-set", "nest-multi", "name-invalid-utf8", "value-invalid-utf8", "member-count-desc", "member-count-shuffled",
-    "attr-count-desc",
+    "attr-count-desc", "wide-then-many",
 ];
 
 /// input family `fam` with about `n` bytes of attribute data
@@ -1053,6 +1064,23 @@ pub fn family(fam: &str, n: usize) -> Vec<u8> {
                 tnv(&mut v, 0x21, b"", &[0, 0, 0, 1]);
             }
             tnv(&mut v, 0x37, b"", b"");
+        }
+        // one wide collection first, then many small collections (state carried from one collection to the next)
+        "wide-then-many" => {
+            tnv(&mut v, 0x34, b"w", b"");
+            for i in 0..(n / 2 / 23) {
+                let name = format!("m{i:07}");
+                tnv(&mut v, 0x4a, b"", name.as_bytes());
+                tnv(&mut v, 0x21, b"", &[0, 0, 0, 1]);
+            }
+            tnv(&mut v, 0x37, b"", b"");
+            for i in 0..(n / 2 / 30) {
+                let name = format!("s{i:07}");
+                tnv(&mut v, 0x34, name.as_bytes(), b"");
+                tnv(&mut v, 0x4a, b"", b"m");
+                tnv(&mut v, 0x21, b"", &[0, 0, 0, 1]);
+                tnv(&mut v, 0x37, b"", b"");
+            }
         }
         "attr-count-desc" => {
             let m = n / 17;
